@@ -500,7 +500,9 @@ class Unit:
         if deep:
             registry = copy.deepcopy(self.registry)
         else:
-            registry = copy.copy(self.registry)
+            # a shallow copy of the registry would be a second registry object
+            # working on the same symbol table and unit cache
+            registry = self.registry
         return Unit(expr, base_value, base_offset, dimensions, registry)
 
     def __deepcopy__(self, memodict=None):
